@@ -5,6 +5,7 @@ vlib/data/known/<id>/ holds a tiny module (files end in .txt, as in vlib/data/si
     exit 0   the finding reproduces exactly as recorded (the script prints one line saying what it saw)
     exit 3   the program behaves as the property demands now (the finding is gone)
     other    the program fails in ANOTHER way than recorded: a different violation
+Probes exist for `known` findings and, as regression witnesses, for `fixed` ones whose input no corpus can express.
 A finding is replayed by the check of its property: reproduced and listed as `known` in known_findings.json ->
 KNOWN-FINDING line; reproduced and not listed as known (e.g. marked fixed: the defect is back) -> VIOLATION with the
 probe as replay; gone -> a note (nothing is suppressed); failing differently -> VIOLATION."""
@@ -54,7 +55,8 @@ def run(rep, prop):
                                   {"probe": fid, "finding": f, "output": out[-3000:]}, True)
             elif p.returncode == 3:
                 stats[fid] = "gone"
-                rep.notes.append("known finding %s no longer reproduces on this tree (%s)" % (fid, last))
+                if f.get("status") == "known":
+                    rep.notes.append("known finding %s no longer reproduces on this tree (%s)" % (fid, last))
             else:
                 stats[fid] = "differs"
                 rep.violation("the program of known finding %s fails in another way than recorded (exit %d): %s" % (fid, p.returncode, out[-600:]),
